@@ -50,9 +50,10 @@ type ruleT struct {
 }
 
 type opT struct {
-	Kind string `json:"kind"` // enter | skip-plain | skip-empty | exit | fire | conn | disc
-	Dt   uint64 `json:"dt"`   // clock advance (ms) before the operation
-	Slot int    `json:"slot"` // which of the (at most two) concurrently live requests
+	Kind string `json:"kind"`          // enter | skip-plain | skip-empty | exit | fire | conn | disc | reload
+	Var  int    `json:"var,omitempty"` // reload: 0 identical rule via LoadRuleOfResource, 1 identical via LoadRules, 2 / 3 the same with changed RecoveryIntervalMs / RecycleIntervalS / MaxRecoveryAttempts
+	Dt   uint64 `json:"dt"`            // clock advance (ms) before the operation
+	Slot int    `json:"slot"`          // which of the (at most two) concurrently live requests
 	Addr int    `json:"addr,omitempty"`
 	Err  bool   `json:"err,omitempty"`
 	Rt   uint64 `json:"rt,omitempty"`
@@ -67,9 +68,10 @@ type caseT struct {
 }
 
 const (
-	startMs  = uint64(1700000000000)
-	pairBase = 200000
-	limBase  = 300000
+	startMs    = uint64(1700000000000)
+	pairBase   = 200000
+	limBase    = 300000
+	reloadBase = 400000
 )
 
 func third() float64 { return 1.0 / 3 }
@@ -186,6 +188,8 @@ func genHist(r *rng.R, id int) caseT {
 			}
 			c.Ops = append(c.Ops, exitOp(r, c, s, live[s], dt(), fails))
 			live[s] = ""
+		case x >= 98:
+			c.Ops = append(c.Ops, opT{Kind: "reload", Dt: dt(), Var: r.Intn(4)})
 		case x < 90:
 			c.Ops = append(c.Ops, opT{Kind: "fire", Dt: dt(), Addr: 1 + r.Intn(c.Nodes)})
 		case x < 96:
@@ -226,6 +230,45 @@ func genPair(id, n int, pct float64, active bool) caseT {
 		c.Ops = append(c.Ops, opT{Kind: "enter", Dt: 1}, opT{Kind: "exit", Addr: i, Err: true})
 	}
 	c.Ops = append(c.Ops, opT{Kind: "enter", Dt: 1}, opT{Kind: "exit"})
+	return c
+}
+
+// genReload: the recycler / retryer bookkeeping across rule reloads.  k of n nodes fail and are
+// ejected; a request reports them (they are scheduled for recycling, in active mode also for
+// probing); the first of them then completes a request successfully (a passive probe after the
+// retry timeout, or the retryer's connect callback); its timer fires: it must keep its breaker,
+// while a node that never recovered loses it.  Reloads of the four kinds are placed between the
+// scheduling and the success, and between the success and the timer.
+func genReload(r *rng.R, id int) caseT {
+	c := caseT{ID: id, Class: "reload"}
+	c.Rule = ruleT{Strategy: 2, RetryMs: uint32(r.PickI(10, 100, 1000)), MinReq: 1, StatMs: 60000, Thr: 1,
+		ProbeNum: uint64(r.PickI(0, 1, 1, 2)), Active: r.Chance(1, 3), Pct: r.PickF(1, 1, 0.5, third(), 0.75)}
+	c.Rule.PctBits = fmt.Sprintf("%016x", math.Float64bits(c.Rule.Pct))
+	c.Nodes = 2 + r.Intn(4)
+	k := 1 + r.Intn(c.Nodes-1) // nodes 1..k fail, k+1..n are healthy
+	for i := 1; i <= c.Nodes; i++ {
+		c.Ops = append(c.Ops, opT{Kind: "enter", Dt: 1}, opT{Kind: "exit", Addr: i, Err: i <= k})
+	}
+	reload := func(p int) {
+		for n := r.Intn(p); n > 0; n-- {
+			c.Ops = append(c.Ops, opT{Kind: "reload", Dt: uint64(r.Intn(3)), Var: r.Intn(4)})
+		}
+	}
+	reload(2)
+	c.Ops = append(c.Ops, opT{Kind: "enter", Dt: 1}, opT{Kind: "exit", Addr: c.Nodes}) // schedules 1..k
+	reload(3)
+	if c.Rule.Active && r.Bool() {
+		c.Ops = append(c.Ops, opT{Kind: "conn", Dt: 1, Addr: 1, Rt: 1})
+	} else {
+		c.Ops = append(c.Ops, opT{Kind: "enter", Dt: uint64(c.Rule.RetryMs)}, opT{Kind: "exit", Addr: 1})
+	}
+	reload(3)
+	c.Ops = append(c.Ops, opT{Kind: "fire", Dt: 1, Addr: 1})
+	if k >= 2 {
+		c.Ops = append(c.Ops, opT{Kind: "fire", Addr: 2})
+	}
+	reload(2)
+	c.Ops = append(c.Ops, opT{Kind: "enter", Dt: 1}, opT{Kind: "exit", Addr: 1})
 	return c
 }
 
@@ -306,19 +349,58 @@ func nodeStates(res string) map[int]int32 {
 
 func runCase(c caseT, clk *vclock.Clock) []obsT {
 	res := resName(c.ID)
-	rule := &outlier.Rule{
-		Rule: &circuitbreaker.Rule{Resource: res, Strategy: circuitbreaker.Strategy(c.Rule.Strategy), RetryTimeoutMs: c.Rule.RetryMs,
-			MinRequestAmount: c.Rule.MinReq, StatIntervalMs: c.Rule.StatMs, MaxAllowedRtMs: c.Rule.MaxRt, Threshold: c.Rule.Thr, ProbeNum: c.Rule.ProbeNum},
-		EnableActiveRecovery: c.Rule.Active,
-		MaxEjectionPercent:   c.Rule.Pct,
-		MaxRecoveryAttempts:  3,
-		RecoveryCheckFunc:    func(string) bool { return false },
+	// a fresh rule object (and a fresh circuit-breaker part) per load; gen > 0 changes only fields that
+	// neither the node breakers nor the slot's decisions depend on
+	mkRule := func(gen int) *outlier.Rule {
+		ru := &outlier.Rule{
+			Rule: &circuitbreaker.Rule{Resource: res, Strategy: circuitbreaker.Strategy(c.Rule.Strategy), RetryTimeoutMs: c.Rule.RetryMs,
+				MinRequestAmount: c.Rule.MinReq, StatIntervalMs: c.Rule.StatMs, MaxAllowedRtMs: c.Rule.MaxRt, Threshold: c.Rule.Thr, ProbeNum: c.Rule.ProbeNum},
+			EnableActiveRecovery: c.Rule.Active,
+			MaxEjectionPercent:   c.Rule.Pct,
+			MaxRecoveryAttempts:  3,
+		}
+		if c.Rule.Active {
+			ru.RecoveryCheckFunc = func(string) bool { return false }
+		}
+		if gen > 0 {
+			ru.MaxRecoveryAttempts = 3 + uint32(gen)
+			ru.RecoveryIntervalMs = 1000 * uint32(gen)
+			ru.RecycleIntervalS = 600 + uint32(gen)
+		}
+		return ru
 	}
+	gen := 0
 	// one rule per case; the rule map is replaced, so earlier cases' resources lose theirs
-	if _, err := outlier.LoadRules([]*outlier.Rule{rule}); err != nil {
+	if _, err := outlier.LoadRules([]*outlier.Rule{mkRule(0)}); err != nil {
 		panic(err)
 	}
 	outlier.VerifInstall(res, 10*365*24*time.Hour)
+	// a timer belongs to the recycler / retryer object that armed it: remember, per node, the object
+	// whose map gained the node, and fire the callbacks on that object
+	recOf := map[int]*outlier.Recycler{}
+	retOf := map[int]*outlier.Retryer{}
+	track := func() {
+		cur := outlier.VerifRecyclerOf(res)
+		for k := range outlier.VerifRecyclerStatus(res) {
+			a := addrOf(k)
+			if h := recOf[a]; h == nil || !h.VerifHasTimer(k) {
+				recOf[a] = cur
+			}
+		}
+		curT := outlier.VerifRetryerOf(res)
+		for k := range outlier.VerifRetryerCounts(res) {
+			a := addrOf(k)
+			if h := retOf[a]; h == nil || !h.VerifHasTimer(k) {
+				retOf[a] = curT
+			}
+		}
+	}
+	retryerFor := func(a int) *outlier.Retryer {
+		if h := retOf[a]; h != nil && h.VerifHasTimer(addrName(a)) {
+			return h
+		}
+		return outlier.VerifRetryerOf(res)
+	}
 	clk.SetMs(startMs)
 	var ents [2]*base.SentinelEntry
 	var kinds [2]string
@@ -364,12 +446,36 @@ func runCase(c caseT, clk *vclock.Clock) []obsT {
 			e.Exit()
 			ents[o.Slot] = nil
 		case "fire":
-			outlier.VerifRecycle(res, addrName(o.Addr))
+			if h := recOf[o.Addr]; h != nil && h.VerifHasTimer(addrName(o.Addr)) {
+				h.VerifRecycle(addrName(o.Addr))
+			} else {
+				outlier.VerifRecyclerOf(res).VerifRecycle(addrName(o.Addr)) // no timer armed: a no-op
+			}
+			delete(recOf, o.Addr)
 		case "conn":
-			outlier.VerifConnected(res, addrName(o.Addr), o.Rt)
+			retryerFor(o.Addr).VerifConnected(addrName(o.Addr), o.Rt)
 		case "disc":
-			outlier.VerifDisconnected(res, addrName(o.Addr))
+			retryerFor(o.Addr).VerifDisconnected(addrName(o.Addr))
+		case "reload":
+			g := 0
+			if o.Var >= 2 {
+				gen++
+				g = gen
+			} else {
+				g = gen // identical to the rule in force
+			}
+			var err error
+			if o.Var%2 == 0 {
+				_, err = outlier.LoadRuleOfResource(res, mkRule(g))
+			} else {
+				_, err = outlier.LoadRules([]*outlier.Rule{mkRule(g)})
+			}
+			if err != nil {
+				panic(err)
+			}
+			outlier.VerifInstall(res, 10*365*24*time.Hour) // objects created from now on: no real timer either
 		}
+		track()
 		ob.Nodes = nodeStates(res)
 		ob.Status = map[int]bool{}
 		for k, v := range outlier.VerifRecyclerStatus(res) {
@@ -382,6 +488,17 @@ func runCase(c caseT, clk *vclock.Clock) []obsT {
 		obs = append(obs, ob)
 	}
 	return obs
+}
+
+// runCaseSafe: a panic of the code under test (or of the runner on an impossible observation) is
+// reported by the caller as a monitor failure with the case as input, never as a harness crash
+func runCaseSafe(c caseT, clk *vclock.Clock) (obs []obsT, panicked string) {
+	defer func() {
+		if p := recover(); p != nil {
+			panicked = fmt.Sprint(p)
+		}
+	}()
+	return runCase(c, clk), ""
 }
 
 // ---- monitor: the property stated on the implementation's trace ---------------------------
@@ -619,6 +736,8 @@ func coqCase(c caseT, obs []obsT) string {
 			ops = append(ops, fmt.Sprintf("Connected %d %d %d", ob.Now, o.Addr, o.Rt))
 		case "disc":
 			ops = append(ops, fmt.Sprintf("Disconnected %d", o.Addr))
+		case "reload":
+			ops = append(ops, "Reload")
 		}
 		out := "ONone"
 		if ob.HasLists {
@@ -663,7 +782,7 @@ func main() {
 
 	root := rng.New(a.Seed)
 	rep := emit.NewReport("C20", a.Seed, a.Tier)
-	rep.Rule = "history cases: one outlier rule (3 breaker strategies, MaxEjectionPercent from k/20, simple fractions, random doubles; active recovery on/off), 1-12 callee addresses with healthy/flaky/dead failure classes, 16-60 operations (requests with up to two live at once, requests whose outlier check does not run, recycler timer firings, retryer outcomes) with clock steps on and around the retry timeout / statistic interval. pair cases: n nodes all ejected, then one measured request, for (n, pct) pairs. Non-trivial = some request reported a non-empty filter list AND (a request had more rejecting nodes than it was allowed to filter, or reported a half-open node, or a timer recycled a node, or a node survived its timer because of a successful completion); distinct by full input."
+	rep.Rule = "history cases: one outlier rule (3 breaker strategies, MaxEjectionPercent from k/20, simple fractions, random doubles; active recovery on/off), 1-12 callee addresses with healthy/flaky/dead failure classes, 16-60 operations (requests with up to two live at once, requests whose outlier check does not run, recycler timer firings, retryer outcomes) with clock steps on and around the retry timeout / statistic interval. pair cases: n nodes all ejected, then one measured request, for (n, pct) pairs. reload cases: k of n nodes ejected and scheduled, 0-2 rule reloads (identical rule or changed RecoveryIntervalMs / RecycleIntervalS / MaxRecoveryAttempts, through LoadRuleOfResource or LoadRules) before and after the successful completion (passive probe or retryer callback) of one of them, then the timers fire on the recycler object that armed them; random histories carry such reloads too (2 in 100 operations). Non-trivial = some request reported a non-empty filter list AND (a request had more rejecting nodes than it was allowed to filter, or reported a half-open node, or a timer recycled a node, or a node survived its timer because of a successful completion); distinct by full input."
 	nCorr := a.Pick(a.N, 220, 3000)
 	nMon := a.Pick(a.Mon, 2500, 30000)
 	if a.Search {
@@ -682,6 +801,9 @@ func main() {
 	pairs := pairList(a.Tier)
 
 	getCase := func(id int) caseT {
+		if id >= reloadBase {
+			return genReload(root.Fork(uint64(id)), id)
+		}
 		if id >= pairBase && id < limBase {
 			j := id - pairBase
 			p := pairs[j%len(pairs)]
@@ -691,8 +813,13 @@ func main() {
 	}
 	runOne := func(id int, corr bool) {
 		c := getCase(id)
-		obs := runCase(c, clk)
+		obs, pmsg := runCaseSafe(c, clk)
 		rep.Evaluations++
+		if pmsg != "" {
+			rep.Fail(c.ID, "C20_no_panic", "panic-while-running-the-case", pmsg, c)
+			rep.Count("cases_panicked", 1)
+			return
+		}
 		st := monitor(c, obs, rep)
 		if st.nonEmptyFilter && (st.cut || st.half || st.recycled || st.keptAfterSuccess) {
 			b, _ := json.Marshal(c)
@@ -730,7 +857,7 @@ func main() {
 		}
 	}
 	if a.Only >= 0 {
-		if a.Only < limBase {
+		if a.Only < limBase || a.Only >= reloadBase {
 			runOne(a.Only, false)
 		}
 		for _, f := range rep.MonitorFailures {
@@ -740,6 +867,10 @@ func main() {
 	}
 	for id := 0; id < nMon; id++ {
 		runOne(id, id < nCorr)
+	}
+	// scripted reload histories (recycler / retryer bookkeeping across rule reloads)
+	for j := 0; j < a.Pick(0, 40, 600); j++ {
+		runOne(reloadBase+j, !a.Search)
 	}
 	// (n, pct) pairs on the implementation, passive and active
 	for j := 0; j < 2*len(pairs); j++ {
